@@ -204,16 +204,6 @@ Section Refine.
       split; [reflexivity|eapply stq_trans; eassumption].
   Qed.
 
-  Lemma nested_fx_stq : forall nt y s s', nested_fx c nt y s = Some s' -> stq c s s'.
-  Proof.
-    induction nt as [|[k2 t] r IH]; intros y s s' H; cbn [nested_fx] in H.
-    - injection H as <-. apply stq_refl.
-    - destruct (deref y) as [lk l| |lk ls|z|tg fs|o|l|tg l2]; try discriminate; try (apply (IH _ _ _ H)).
-      destruct (assoc k2 l2) as [y2|]; [|apply (IH _ _ _ H)].
-      destruct (apply_tag c (resolve_string (c_ov c) t) y2 s) as [[y3 s1]|] eqn:E; [|discriminate].
-      destruct (apply_tag_spec _ _ _ _ _ E) as [_ Q1]. eapply stq_trans; [exact Q1|apply (IH _ _ _ H)].
-  Qed.
-
   Theorem walk_spec : forall x cx s y s', walk c cx x s = Some (y, s') -> y = spec ov key cx x /\ stq c s s'.
   Proof.
     induction x as [lk l| |lk ls|z|tg fs IH| |y0 IH|l IH|tg l IH] using v_ind'; intros cx s y s' H; cbn [walk] in H; cbn [spec].
@@ -259,16 +249,15 @@ Section Refine.
       injection H as <- <-.
       eapply (mapM_Forall2 _ (fun (ky ky' : N * v) =>
                 ky' = (fst ky, match key_tags (fst ky) (map_tags cx tg) with
-                               | [] => spec ov key CMapVal (snd ky)
+                               | [] => spec ov key (entry_ctx (fst ky) (map_tags cx tg)) (snd ky)
                                | ts => spec_tags ov key ts (snd ky) end))
                 (stq c) (stq_refl c) (stq_trans c)) in Em.
       + destruct Em as [F2 Q]. split; [|exact Q]. f_equal. apply Forall2_eq_map in F2. exact F2.
       + eapply Forall_impl; [|exact IH]. intros [k y] IHy s0 b s2 Hf. cbn [fst snd] in *.
         destruct (key_tags k (map_tags cx tg)) as [|t0 ts] eqn:Ek.
-        * destruct (nested_fx c (nested_tags k (map_tags cx tg)) y s0) as [s3|] eqn:En; [|discriminate].
-          destruct (walk c CMapVal y s3) as [[y1 s4]|] eqn:Ew; [|discriminate]. injection Hf as <- <-.
-          destruct (IHy _ _ _ _ Ew) as [-> Q]. split; [reflexivity|].
-          eapply stq_trans; [apply (nested_fx_stq _ _ _ _ En)|exact Q].
+        * destruct (nested_bad k (map_tags cx tg) y); [discriminate|].
+          destruct (walk c (entry_ctx k (map_tags cx tg)) y s0) as [[y1 s4]|] eqn:Ew; [|discriminate]. injection Hf as <- <-.
+          destruct (IHy _ _ _ _ Ew) as [-> Q]. split; [reflexivity|exact Q].
         * destruct (apply_tags c (t0 :: ts) y s0) as [[y1 s3]|] eqn:Ea; [|discriminate]. injection Hf as <- <-.
           destruct (apply_tags_spec _ _ _ _ _ Ea) as [-> Q]. split; [reflexivity|exact Q].
   Qed.
